@@ -231,13 +231,39 @@ pub fn split(
     compressed: bool,
 ) -> Vec<Vec<u8>> {
     // Source: bit 31 of the answer id is the compression flag; GoldSrc: the id is any 32-bit number (no flag exists there)
+    let (body, dsize, crc) = if compressed { (bz2(payload), payload.len() as u32, crc32fast::hash(payload)) } else { (payload.to_vec(), 0, 0) };
+    split_body(rng, ctx, &body, dsize, crc, k, gold, sized, compressed)
+}
+
+/// A bzip2 stream of `mib` MiB of zero bytes (a few hundred bytes long): the body of a decompression bomb.
+pub fn bz2_zeros(mib: usize) -> Vec<u8> {
+    use std::process::{Command, Stdio};
+    let out = Command::new("python3")
+        .args(["-c", &format!("import sys,bz2;sys.stdout.buffer.write(bz2.compress(bytes({mib}<<20)))")])
+        .stdout(Stdio::piped())
+        .output()
+        .expect("python3 for bz2");
+    assert!(out.status.success());
+    out.stdout
+}
+
+/// The framing of `split` around an arbitrary body (for a compressed reply: the bzip2 stream, the declared size and CRC).
+pub fn split_body(
+    rng: &mut StdRng,
+    ctx: &Ctx,
+    body: &[u8],
+    dsize: u32,
+    crc: u32,
+    k: usize,
+    gold: bool,
+    sized: bool,
+    compressed: bool,
+) -> Vec<Vec<u8>> {
     let mut id: u32 = if gold { rng.gen::<u32>() | if rng.gen_bool(0.5) { 0x8000_0000 } else { 0 } } else { rng.gen::<u32>() & 0x7fff_ffff };
-    let (body, dsize, crc) = if compressed {
+    if compressed {
         id |= 0x8000_0000;
-        (bz2(payload), payload.len() as u32, crc32fast::hash(payload))
-    } else {
-        (payload.to_vec(), 0, 0)
-    };
+    }
+    let body = body.to_vec();
     let chunks = cut(rng, &body, k);
     let mut out = Vec::new();
     for (n, ch) in chunks.iter().enumerate() {
@@ -382,13 +408,58 @@ fn pick_ids(rng: &mut StdRng, big: bool) -> (u32, u32, u32) {
 }
 
 /// Turn one ValveA2S.tla behaviour into a script + expectations.
-pub fn concretise(rng: &mut StdRng, ctx: &Ctx, b: &Value) -> Concrete {
+pub fn concretise(rng: &mut StdRng, ctx: &Ctx, b: &Value) -> Concrete { concretise_for(rng, ctx, b, None) }
+
+/// Rows of the definitions table whose engine fits the behaviour's expectation class (none / main / main+ded).
+pub fn rows_for(expect: &str) -> Vec<(&'static str, Engine)> {
+    let mut rows: Vec<(&'static str, Engine)> = gamedig::GAMES
+        .entries()
+        .filter_map(|(id, g)| {
+            match &g.protocol {
+                gamedig::protocols::types::Protocol::Valve(e) if *id != "battalion1944" && *id != "css" => Some((*id, *e)),
+                _ => None,
+            }
+        })
+        .filter(|(_, e)| {
+            match (expect, e) {
+                ("none", Engine::Source(None)) | ("none", Engine::GoldSrc(false)) => true,
+                ("main", Engine::Source(Some((m, None)))) => ![2400, 240, 632_360].contains(m),
+                ("main+ded", Engine::Source(Some((_, Some(_))))) => true,
+                _ => false,
+            }
+        })
+        .collect();
+    rows.sort_by_key(|(id, _)| *id);
+    rows
+}
+
+/// `row`: take the engine and the app ids from this row of the definitions table (the behaviour is then also replayed
+/// through the definition-driven entry point with the caller's gather toggles as extra request settings).
+pub fn concretise_for(rng: &mut StdRng, ctx: &Ctx, b: &Value, row: Option<(&'static str, Engine)>) -> Concrete {
     let cfg = &b["cfg"];
     let big = rng.gen_bool(0.5);
-    let (a, d, x) = pick_ids(rng, big);
+    let (mut a, mut d, mut x) = pick_ids(rng, big);
+    if let Some((_, Engine::Source(Some((m, dd))))) = row {
+        a = m;
+        if let Some(dd) = dd {
+            d = dd;
+        }
+        while x == a || x == d {
+            x = x.wrapping_add(1) & 0xffff;
+        }
+        while d == a || d == x {
+            d = d.wrapping_add(1) & 0xffff;
+        }
+    }
     let expect = cfg["expect"].as_str().unwrap();
     let srv = cfg["srv"].as_str().unwrap();
-    let engine = match expect {
+    let engine = if let Some((_, e)) = row {
+        match e {
+            Engine::GoldSrc(f) => json!({"t":"goldsrc","force":f}),
+            Engine::Source(None) => json!({"t":"source_none"}),
+            Engine::Source(Some((m, dd))) => json!({"t":"source","main":m,"ded":dd}),
+        }
+    } else { match expect {
         "none" => {
             match rng.gen_range(0 .. 4) {
                 0 => json!({"t":"goldsrc","force":false}),
@@ -398,7 +469,7 @@ pub fn concretise(rng: &mut StdRng, ctx: &Ctx, b: &Value) -> Concrete {
         }
         "main" => json!({"t":"source","main":a,"ded":null}),
         _ => json!({"t":"source","main":a,"ded":d}),
-    };
+    } };
     let appid = match srv {
         "main" => a,
         "ded" => d,
@@ -496,6 +567,33 @@ pub fn run_concrete(c: &Concrete, port: u16) -> CallRecord {
     let gather = c.gather;
     let retries = c.retries;
     run_call(&c.script, DEFAULT_MAX_OPS, move || valve::query(&addr(port), engine, Some(gather), timeouts(retries)))
+}
+
+/// (the enum wrappers of the generic response are not part of a comparison)
+pub fn strip_enum_wrappers(v: &Value) -> &Value {
+    let mut cur = v;
+    while let Some(m) = cur.as_object().filter(|m| m.len() == 1 && m.keys().next().unwrap().chars().next().map_or(false, |c| c.is_uppercase())) {
+        cur = m.values().next().unwrap();
+    }
+    cur
+}
+
+/// The same behaviour through the definition-driven entry point of a table row: the gather toggles and the app-id switch
+/// travel as the caller's extra request settings.
+pub fn run_concrete_generic(c: &Concrete, id: &str, port: u16) -> CallRecord {
+    let game = gamedig::GAMES.get(id).unwrap();
+    let extras = gamedig::protocols::types::ExtraRequestSettings::default()
+        .set_gather_players(c.gather.players)
+        .set_gather_rules(c.gather.rules)
+        .set_check_app_id(c.gather.check_app_id);
+    let ip: std::net::IpAddr = addr(port).ip();
+    let retries = c.retries;
+    run_call_json(&c.script, DEFAULT_MAX_OPS, move || {
+        match gamedig::query_with_timeout_and_extra_settings(game, &ip, Some(port), timeouts(retries), Some(extras)) {
+            Ok(r) => Ok(strip_enum_wrappers(&serde_json::to_value(r.as_original()).unwrap()).clone()),
+            Err(e) => Err(format!("{:?}", e.kind)),
+        }
+    })
 }
 
 /// Compare a call record with what the behaviour prescribes. Returns violations as (property, sig, detail).
@@ -634,11 +732,18 @@ pub fn replay_behaviours(ctx: &Ctx, lines: &[Value], seed: u64, reps: usize, onl
     let mut rng = StdRng::seed_from_u64(seed);
     let port = 27015;
     for b in lines {
-        for _ in 0 .. reps {
-            let c = concretise(&mut rng, ctx, b);
-            let rec = run_concrete(&c, port);
+        for rep_no in 0 .. reps {
+            // every other repetition: a row of the definitions table through the definition-driven entry point
+            let rows = rows_for(b["cfg"]["expect"].as_str().unwrap());
+            let row = if rep_no % 2 == 1 && !rows.is_empty() { Some(rows[rng.gen_range(0 .. rows.len())]) } else { None };
+            let c = concretise_for(&mut rng, ctx, b, row);
+            let rec = match row {
+                Some((id, _)) => run_concrete_generic(&c, id, port),
+                None => run_concrete(&c, port),
+            };
             rep.evaluations += 1;
             for (prop, sig, detail) in judge(b, &c, &rec, port) {
+                let sig = if let Some((id, _)) = row { format!("{sig} [definition-driven query of {id}]") } else { sig };
                 // a request that is not the protocol's would not be answered by a conforming server: the
                 // scripted reply that followed it is void, so the property under check is not established either
                 let (prop, sig) = if prop == "C09" && !only.is_empty() && !only.contains(&"C09") {
